@@ -114,6 +114,18 @@ package route
 //@        && ((h.Ring[idx].Position >= p && (forall k int :: 0 <= k && k < idx ==> h.Ring[k].Position < p))
 //@            || (idx == 0 && (forall k int :: 0 <= k && k < len(h.Ring) ==> h.Ring[k].Position < p)))
 //@
+//@ // AddDestination: the ring grows by replicaCount entries and is left in Carbon's order (position, host, instance),
+//@ // not merely sorted by position: entries that share a position come in the same order whatever the order in which the
+//@ // destinations were listed
+//@ func (h *ConsistentHasher) AddDestination(d *dest.Destination)
+//@   property C15
+//@   requires d != nil && h.replicaCount >= 0
+//@   modifies *
+//@   ensures[ring_in_carbon_order; C15] forall i int, j int :: 0 <= i && i < j && j < len(h.Ring) ==> !lexLess(h.Ring[j], h.Ring[i])
+//@   ensures[ring_grows; C15] len(h.Ring) == old(len(h.Ring)) + old(h.replicaCount) && len(h.destinations) == old(len(h.destinations)) + 1
+//@   loop 1:
+//@     invariant[idx] 0 <= i && i <= h.replicaCount && len(newRingEntries) == h.replicaCount && h.replicaCount == old(h.replicaCount) && len(h.Ring) == old(len(h.Ring)) && len(h.destinations) == old(len(h.destinations)) + 1 && d != nil
+//@
 //@ func NewConsistentHasher(destinations []*dest.Destination) ConsistentHasher
 //@   property C15
 //@   trusted
